@@ -58,3 +58,24 @@ def method(cls, name):
 
 def spec_fn(module, name):
     return lookup_function(getattr(module, name))
+
+
+# ---- write frames (C09, C15): stores recorded by the interpreter in the trace
+
+def write_items(trace):
+    out = []
+    for item in trace:
+        if item[0] in ("write", "mutate"):
+            out.append(item)
+        elif item[0] == "loop":
+            for alt in item[3]:
+                out.extend(write_items(alt["trace"]))
+    return out
+
+
+def no_foreign_writes(o):
+    """Postcondition: the only stores are into objects allocated by this call (and match.children)."""
+    bad = [w for w in write_items(o.trace) if not (w[0] == "mutate" and w[2] == "FRESH")]
+    if bad:
+        return [("frame", [], z3.BoolVal(False), f"writes outside the frame: {bad[:3]}")]
+    return [("frame", [], z3.BoolVal(True), "no store into DOC / CTX / QUERY objects on this path")]
